@@ -73,19 +73,29 @@ def forbidden_audit():
     return hits
 
 
+def prop_modules(prop):
+    """WS.Props.Cxx plus optional continuation files WS.Props.Cxxb, Cxxc ... (same property)."""
+    d = os.path.join(LEAN, "WS", "Props")
+    mods = []
+    for suffix in [""] + list("bcdefgh"):
+        if os.path.exists(os.path.join(d, f"{prop}{suffix}.lean")):
+            mods.append(f"{prop}{suffix}")
+    return mods
+
+
 def theorems_of(prop):
-    """property theorems = every `theorem` in lean/WS/Props/Cxx.lean, fully qualified."""
-    p = os.path.join(LEAN, "WS", "Props", f"{prop}.lean")
-    if not os.path.exists(p):
-        return []
-    with open(p) as f:
-        t = strip_comments(f.read())
-    return [f"WS.Props.{prop}.{m}" for m in re.findall(r"^\s*theorem\s+([A-Za-z0-9_'.]+)", t, re.M)]
+    """property theorems = every `theorem` in lean/WS/Props/Cxx[b..].lean, fully qualified."""
+    out = []
+    for m in prop_modules(prop):
+        with open(os.path.join(LEAN, "WS", "Props", f"{m}.lean")) as f:
+            t = strip_comments(f.read())
+        out += [f"WS.Props.{m}.{x}" for x in re.findall(r"^\s*theorem\s+([A-Za-z0-9_'.]+)", t, re.M)]
+    return out
 
 
 def imported_modules(prop):
     """transitive WS.* imports of the property file (for leanchecker and obligation counts)."""
-    seen, todo = [], [f"WS.Props.{prop}"]
+    seen, todo = [], [f"WS.Props.{m}" for m in prop_modules(prop)]
     while todo:
         m = todo.pop()
         if m in seen:
@@ -124,7 +134,7 @@ def build_and_audit(prop, tier, log):
         if rc != 0:
             r["errors"].append("driver build failed: " + "\n".join(
                 l for l in out.splitlines() if "error" in l)[:1500])
-        rc, out = sh(["lake", "build", f"WS.Props.{prop}"], cwd=LEAN)
+        rc, out = sh(["lake", "build"] + [f"WS.Props.{m}" for m in prop_modules(prop)], cwd=LEAN)
         log.append(out[-3000:])
         r["build_ok"] = rc == 0
         if rc != 0:
@@ -137,7 +147,7 @@ def build_and_audit(prop, tier, log):
             os.makedirs(os.path.join(STATE, "audit"), exist_ok=True)
             ap = os.path.join(STATE, "audit", f"{prop}.lean")
             with open(ap, "w") as f:
-                f.write(f"import WS.Props.{prop}\n" + "".join(f"#print axioms {t}\n" for t in thms))
+                f.write("".join(f"import WS.Props.{m}\n" for m in prop_modules(prop)) + "".join(f"#print axioms {t}\n" for t in thms))
             rc, out = sh(["lake", "env", "lean", ap], cwd=LEAN)
             if rc != 0:
                 r["errors"].append("axiom audit failed to run: " + out[:800])
